@@ -1,3 +1,4 @@
+#![cfg_attr(kani, feature(allocator_api))]
 mod commands;
 mod hooks;
 
